@@ -262,6 +262,9 @@ PROFILE = {
     'disconnect_all_pct': 2,
     'world_kw_st': st.fixed_dictionaries({
         'legacy_disconnect': st.sampled_from([False, False, True]),
+        # real timers fire late, never exactly on time: a quarter tick of lateness on every
+        # timed wait (the exact virtual clock would otherwise sit on every '>' boundary)
+        'timer_jitter': st.sampled_from([0.0, 0.0, 2.0 ** -12]),
         # threaded world: switching points at single lines inside the library
         'preempt': st.sampled_from([False, False, True] if os.environ.get('VERIF_PREEMPT') == '1'
                                    else [False]),
